@@ -192,7 +192,7 @@ def main(argv=None):
             if skel_now.get(rel) != h:
                 changed = True      # a class or module the unit's functions live in changed shape (new method, decorator, base, attribute)
         for e in r['errors']:
-            if e.startswith('unsupported') and (changed or not led):
+            if e.startswith('unsupported') and (changed or not led or getattr(u, 'scans_repo', False)):
                 undecided.append((u.name, e))
             else:
                 crashes.append((u.name, e))
